@@ -16,6 +16,7 @@ struct Sink {
     stop_after: Option<usize>,
     slow_ms: u64,
 }
+#[cfg_attr(feature = "alt", ractor::async_trait)]
 impl Actor for Sink {
     type Msg = u32;
     type State = usize;
@@ -46,6 +47,8 @@ struct Sc {
     stop_after: usize,
     slow: bool,
     publisher_yields: bool,
+    /// a sixth subscriber created with spawn_instant and subscribed before its start-up task ever ran
+    instant: bool,
 }
 
 fn body(sc: Sc, v2: bool) -> vsched::Body {
@@ -67,6 +70,14 @@ fn body(sc: Sc, v2: bool) -> vsched::Body {
             let (s3, h3, l3) = mk(3, None, 0).await;
             let (s4, h4, l4) = mk(4, Some(sc.stop_after), 0).await;
             let (s5, h5, l5) = mk(5, None, if sc.slow { 3 } else { 0 }).await;
+            let l6: L = Arc::new(Mutex::new(vec![]));
+            let s6 = if sc.instant {
+                let (r, outer) = ractor::ActorRuntime::<Sink>::spawn_instant(None, Sink { global: global.clone(), id: 6, log: l6.clone(), stop_after: None, slow_ms: 0 }, ()).expect("instant sink");
+                port.subscribe(r.clone(), Some);
+                Some((r, outer))
+            } else {
+                None
+            };
             port.subscribe(s1.clone(), Some);
             port.subscribe(s3.clone(), |v| if v % 2 == 1 { None } else { Some(v + 1000) });
             port.subscribe(s4.clone(), Some);
@@ -124,6 +135,10 @@ fn body(sc: Sc, v2: bool) -> vsched::Body {
             }
             let g5 = l5.lock().unwrap().clone();
             check("S5 (slow subscriber)", &g5, &published, no_lag, &mut bad);
+            let g6 = l6.lock().unwrap().clone();
+            if sc.instant {
+                check("S6 (spawn_instant, subscribed before its start-up ran)", &g6, &published, no_lag, &mut bad);
+            }
             if !no_lag {
                 // a lagging subscriber of the default port may miss messages but keeps receiving later ones
                 for (name, g) in [("S1", &g1), ("S5", &g5)] {
@@ -136,13 +151,19 @@ fn body(sc: Sc, v2: bool) -> vsched::Body {
                 r.stop(None);
                 let _ = h.await;
             }
+            if let Some((r, outer)) = s6 {
+                r.stop(None);
+                if let Ok(Ok(h)) = outer.await {
+                    let _ = h.await;
+                }
+            }
             // s2 was moved into the publisher
             drop(port);
             vsched::quiesce_time();
             let _ = h2;
             Outcome {
                 key: format!(
-                    "s1={g1:?} s2={g2:?} s3={g3:?} s4={g4:?} s5={g5:?} order={:?}",
+                    "s1={g1:?} s2={g2:?} s3={g3:?} s4={g4:?} s5={g5:?} s6={g6:?} order={:?}",
                     global.lock().unwrap().iter().take(10).collect::<Vec<_>>()
                 ),
                 violations: bad,
@@ -159,29 +180,31 @@ pub fn plan(tier: &str) -> Plan {
     let bound = if thorough { 3 } else { 2 };
     let mut units = Vec::new();
     let mut scs = vec![
-        Sc { n: 6, late_at: 0, stop_after: 1, slow: false, publisher_yields: true },
-        Sc { n: 6, late_at: 2, stop_after: 3, slow: false, publisher_yields: true },
-        Sc { n: 6, late_at: 5, stop_after: 3, slow: true, publisher_yields: false },
-        Sc { n: 6, late_at: 6, stop_after: 1, slow: true, publisher_yields: true },
+        Sc { n: 6, late_at: 0, stop_after: 1, slow: false, publisher_yields: true, instant: false },
+        Sc { n: 6, late_at: 2, stop_after: 3, slow: false, publisher_yields: true, instant: false },
+        Sc { n: 6, late_at: 5, stop_after: 3, slow: true, publisher_yields: false, instant: false },
+        Sc { n: 6, late_at: 6, stop_after: 1, slow: true, publisher_yields: true, instant: false },
     ];
     if thorough {
         for late_at in [1, 3, 4] {
             for stop_after in [2, 5] {
-                scs.push(Sc { n: 6, late_at, stop_after, slow: false, publisher_yields: late_at % 2 == 0 });
+                scs.push(Sc { n: 6, late_at, stop_after, slow: false, publisher_yields: late_at % 2 == 0, instant: stop_after == 5 });
             }
         }
     }
+    scs.push(Sc { n: 4, late_at: 1, stop_after: 2, slow: false, publisher_yields: false, instant: true });
+    scs.push(Sc { n: 4, late_at: 4, stop_after: 1, slow: false, publisher_yields: true, instant: true });
     // a long stream: subscribers of the default port lag behind (buffer 10)
-    scs.push(Sc { n: 25, late_at: 12, stop_after: 4, slow: true, publisher_yields: false });
+    scs.push(Sc { n: 25, late_at: 12, stop_after: 4, slow: true, publisher_yields: false, instant: false });
     for build_v2 in [false, true] {
         for sc in &scs {
-            let name = format!("{}/n{}-late{}-stop{}-slow{}-yield{}", if build_v2 { "v2" } else { "v1" }, sc.n, sc.late_at, sc.stop_after, sc.slow, sc.publisher_yields);
+            let name = format!("{}/n{}-late{}-stop{}-slow{}-yield{}{}", if build_v2 { "v2" } else { "v1" }, sc.n, sc.late_at, sc.stop_after, sc.slow, sc.publisher_yields, if sc.instant { "-instant" } else { "" });
             let b: vsched::Body = if build_v2 == V2 {
                 body(*sc, build_v2)
             } else {
                 Arc::new(|| Box::pin(async { Outcome { key: "wrong build".into(), violations: vec!["MACHINERY: unit scheduled on the wrong build".into()] } }))
             };
-            let mut u = Unit::explore(Job::new(name, cfg.clone(), Some(if sc.n > 10 { bound.min(2) } else { bound }), b));
+            let mut u = Unit::explore_split(Job::new(name, cfg.clone(), Some(if sc.n > 10 { bound.min(2) } else { bound }), b), if build_v2 { 2 } else { 8 });
             u.exe_suffix = if build_v2 { Some("-v2") } else { None };
             units.push(u);
         }
@@ -189,7 +212,7 @@ pub fn plan(tier: &str) -> Plan {
     Plan {
         property: "C16",
         units,
-        rule: "a publisher sends 0..N on an output port with five subscribers (from the start, late at every chosen point, filtering converter, self-stopping, slow), for the default port and for output-port-v2 (two builds of the harness); deviation-bounded DFS over task-level schedules of the real forwarding tasks; oracle per subscriber: strictly increasing, only values published after its subscription and mapped to Some, complete when no lag is possible (v2 always; default port for streams within its buffer), survivors unaffected by a stopped or slow peer, a lagging default-port subscriber still receives the latest publications; non-trivial = execution with >= 1 branching decision".into(),
+        rule: "a publisher sends 0..N on an output port with five or six subscribers (from the start, late at every chosen point, filtering converter, self-stopping, slow, created by spawn_instant and subscribed before its start-up ran), for the default port and for output-port-v2 (two builds of the harness); deviation-bounded DFS over task-level schedules of the real forwarding tasks; oracle per subscriber: strictly increasing, only values published after its subscription and mapped to Some, complete when no lag is possible (v2 always; default port for streams within its buffer), survivors unaffected by a stopped or slow peer, a lagging default-port subscriber still receives the latest publications; non-trivial = execution with >= 1 branching decision".into(),
         assumptions: vec![
             "tokio's broadcast channel is trusted (each of its operations is one atomic step)".into(),
             "publishing is synchronous by type (no await), so 'never blocks' is the absence of a hang".into(),
